@@ -205,6 +205,10 @@ def stepOp (c : Case) (st : St) (op : String) : St × String :=
   | "S" :: inp :: sched :: cb :: stk :: rest =>
     let it := mkIt c (nat inp) sched (rest.head? == some "1")
     doCall { st with cb := parseCb cb, stack := (optNat stk).getD 16384, w := { st.w with nmsg := 0 } } it
+  | "R" :: inp :: sched :: cb :: stk :: rest =>     -- same iterator object re-pointed: `last_error` is NOT reset
+    let it0 := mkIt c (nat inp) sched (rest.head? == some "1")
+    let it := { it0 with lastError := (st.it.map (·.lastError)).getD .success }
+    doCall { st with cb := parseCb cb, stack := (optNat stk).getD 16384, w := { st.w with nmsg := 0 } } it
   | ["C"] =>
     match st.it with
     | some it => if st.lastRc = .blockNotReady then doCall st it else (st, "skip")
@@ -216,7 +220,7 @@ def stepOp (c : Case) (st : St) (op : String) : St × String :=
     else
       let s1 : Sc := { st.sc with set := { st.sc.set with processMemory := true } }
       let o := scanCall c.P c.variant (parseCb cb) 16384 s1 ⟨[], [], [], .success, none⟩ { st.w with nmsg := 0 }
-      ({ st with sc := { o.sc with set := st.sc.set }, it := some o.it, w := o.world, lastRc := o.rc }, "P:DONE")
+      ({ st with sc := { o.sc with set := st.sc.set }, w := o.world, lastRc := o.rc }, "P:DONE")
   | _ => (st, "BADOP")
 
 def runOps (c : Case) : St → List String → List String
